@@ -123,8 +123,33 @@ def do_run(ids, all_checks=False):
     print("detected", sum(1 for r in rows if r[1] == "DETECTED"), "of", len(rows))
 
 
+def do_first(ids):
+    """Record the outcome of the property's check at the moment a seeded change is first seen (blind result): applied in
+    memory, nothing in /repo is touched. Never overwrites an existing record."""
+    sys.path.insert(0, VERIF)
+    from djc_sa.selftest import _seeded
+
+    rc, head = sh("git rev-parse --short HEAD", cwd=VERIF)
+    rc, dirty = sh("git status --porcelain djc_sa", cwd=VERIF)
+    for sid in sorted(os.listdir(SEEDED)):
+        mp = os.path.join(SEEDED, sid, "meta.json")
+        if not os.path.isfile(mp) or (ids and sid not in ids and not any(sid.startswith(i) for i in ids)):
+            continue
+        meta = json.load(open(mp))
+        if "first_outcome" in meta:
+            print(sid, "already recorded", meta["first_outcome"].get("result"))
+            continue
+        r = _seeded(("/repo", sid))
+        meta["first_outcome"] = {"result": "detected" if r.get("exit") == 1 else ("analysis-error" if r.get("exit") == 2 else "missed"), "exit": r.get("exit"), "fired": r.get("fired"),
+                                 "verif_commit": head.strip() + ("+dirty" if dirty.strip() else ""), "note": "check run before any rule was written or changed in response to this change"}
+        json.dump(meta, open(mp, "w"), indent=1)
+        print(sid, meta["first_outcome"]["result"], r.get("fired"))
+
+
 if __name__ == "__main__":
-    if sys.argv[1] == "import":
+    if sys.argv[1] == "first":
+        do_first(sys.argv[2:])
+    elif sys.argv[1] == "import":
         do_import(sys.argv[2], sys.argv[3], sys.argv[4] if len(sys.argv) > 4 else "")
     elif sys.argv[1] == "run":
         a = [x for x in sys.argv[2:] if not x.startswith("--")]
